@@ -14,6 +14,7 @@ RULE = ("same space as C12 (tables <=N rows, 1..3 keys over 3-symbol alphabets i
         "non-trivial = interleaved groups: some group's rows are not contiguous")
 ASSUMPTIONS = ["argument menus and alphabets as in C12"]
 METHOD = "window"
+VARIANT = [0]      # provenance round-robin counter (per worker process, reset per unit)
 
 
 def interleaved(keys):
@@ -30,7 +31,9 @@ def check_window(agg, h, kind, nkeys, form, keys, vals, menu_name):
     py = gs.py_repro(keys, vals, nkeys, form, menu_name, METHOD)
     calls = []
     try:
-        t, over = gs.build(keys, vals, nkeys, form)
+        VARIANT[0] += 1
+        case["variant"] = VARIANT[0]
+        t, over = gs.build(keys, vals, nkeys, form, variant=VARIANT[0])
         kw = gs.build_kwargs(t, vals, menu, form, calls)
     except Exception as e:
         agg.violation(V("window.build-inputs", "raises-" + type(e).__name__, case))
@@ -106,6 +109,7 @@ def run_unit(unit):
     agg = Agg()
     h = hashlib.sha256()
     last = None
+    VARIANT[0] = 0
     for keys, vals in gs.cases(unit):
         agg.states += 1
         if interleaved(keys):
@@ -146,6 +150,7 @@ def replay(rec):
         c12.hist_one(agg, case["kind"], case["form"], case["method"], [tuple(k) for k in case["keys"]], case["values"], col, idx, new, path)
         return set(agg.viol)
     if "menu" in case and case.get("method") == METHOD:
+        VARIANT[0] = int(case.get("variant", 1)) - 1
         check_window(agg, hashlib.sha256(), case["kind"], case["nkeys"], case["form"], [tuple(k) for k in case["keys"]], case["values"], case["menu"])
         return set(agg.viol)
     return None
